@@ -38,7 +38,13 @@ def generate(rng, tier):
         # HTTP/2 client -> one HTTP/1 origin address: one upstream connection per stream, the only path on which one
         # client opens more than one connection to an address (ConnectionHandler.max_conns)
         from peers import h2_conc
-        return {"family": "lifecycle-h2h1-concurrency", "h2h1": h2_conc.gen_h2h1_concurrency(rng.at("c09-h2h1"))}
+        h = h2_conc.gen_h2h1_concurrency(rng.at("c09-h2h1"))
+        r2 = rng.at("c09-h2h1-leave")
+        if r2.random() < 0.35:
+            # the client leaves while streams are still waiting for an upstream slot / connects are in flight
+            h["leave_after"] = r2.choice([0.05, 0.3, 0.8, 1.5, 3.0])
+            h["client_close"] = r2.choice(["fin", "rst", "goaway"])
+        return {"family": "lifecycle-h2h1-concurrency", "h2h1": h}
     sc = c03.generate(rng, tier)
     r = rng.at("c09")
     # latency / errors inside connection hooks
@@ -236,6 +242,16 @@ def execute_h2h1(sc):
             v.append({"class": "resource_leak", "key": {"h2h1_upstream_pipe_never_closed": True},
                       "msg": f"{res['leaked_pipes']} upstream pipe(s) to {h2_conc.ADDR} were never closed by the proxy although "
                              f"the client connection handler finished (handler_done={res['handler_done']})"})
+        if res["handler_done"]:
+            # same automaton as for the HTTP/1 family: connect -> connected -> disconnected | connect -> connect_error
+            for seq in res.get("server_hook_seqs", []):
+                ok = seq in (["server_connect", "server_connected", "server_disconnected"],
+                             ["server_connect", "server_connect_error"])
+                if not ok:
+                    bump = "unpaired" if seq in (["server_connect"], ["server_connect", "server_connected"]) else "lifecycle_order"
+                    v.append({"class": bump, "key": {"h2h1": True, "seq": seq},
+                              "msg": f"h2->h1 family: server connection hook sequence {seq} although the client handler finished"})
+                    break
         if res["foreign"]:
             v.append({"class": "answer_for_other_stream", "key": {},
                       "msg": f"{res['foreign']} stream(s) received the origin's answer for another stream's marker"})
